@@ -514,6 +514,28 @@ def build_request(form, request):
     return ix, (False if nodf else None), rows, ("dict" if nodf else "frame")
 
 
+IP_ROUTES = ("json", "csv", "frame", "torch")
+
+
+def route_ip(ip, route):
+    """The same individual parameters after a trip through another of their forms (file, table, tensors): what reaches
+    `estimate` in practice - Python floats, one-element lists, float32 tensors' values."""
+    import os
+    import tempfile
+
+    if route in ("json", "csv"):
+        with tempfile.TemporaryDirectory(dir="/var/tmp") as tmp:
+            path = os.path.join(tmp, "ip." + route)
+            ip.save(path)
+            return IndividualParameters.load(path)
+    if route == "frame":
+        return IndividualParameters.from_dataframe(ip.to_dataframe())
+    if route == "torch":
+        ids, tensors = ip.to_pytorch()
+        return IndividualParameters.from_pytorch(ids, tensors)
+    raise ValueError(route)
+
+
 def _run_layout(case):
     spec = case["spec"]
     ctx = context(spec)
@@ -523,6 +545,9 @@ def _run_layout(case):
     request = [tuple(x) for x in case["request"]]
     form = case["form"]
     ip = make_ip(spec, [(i, CATALOGUE[i]["xi"], CATALOGUE[i]["tau"], CATALOGUE[i]["src"]) for i in CATALOGUE_ORDER])
+    if case.get("ip_route"):
+        ip = route_ip(ip, case["ip_route"])
+        label += f", individual parameters through {case['ip_route']}"
     tp, to_df, rows, layout = build_request(form, request)
     from_index = isinstance(tp, pd.MultiIndex)
     site = f"estimate[{'index' if from_index else 'dict'}->{layout}]"
@@ -546,6 +571,8 @@ def _run_layout(case):
                 feat = ", ".join(fs) or "-"
         else:
             feat = "-"
+        if case.get("ip_route") and feat != "joint model":  # (tables of a joint model fail for the known reason whatever the route)
+            feat = (feat + ", " if feat != "-" else "") + f"individual parameters through {case['ip_route']}"
         judge.add(s, type(e).__name__, feat, f"estimate({_show(tp)}, to_dataframe={to_df}): {e!r}"[:600])
         return _finish(judge, site, f"raise:{type(e).__name__}")
 
@@ -777,6 +804,9 @@ def layout_cases(shard):
         for form in forms:
             if form_applicable(form, request, spec):
                 yield {"t": "layout", "spec": spec, "request": request, "form": form}
+                if form in ("dict", "mi") and set(names) == {"unsorted"}:
+                    for route in IP_ROUTES:
+                        yield {"t": "layout", "spec": spec, "request": request, "form": form, "ip_route": route}
 
 
 def run_shard(shard):
